@@ -125,9 +125,12 @@ func c10Check(r *ev.Run, alphabet []streamFrame, stats map[string]int64) func(ru
 		}
 		if !failing {
 			// (2) nothing lost, nobody stuck
+			// threads parked somewhere else than the known idle points are reported with the loss they
+			// cause, not on their own: where a correct stream parks idle goroutines is its own business
+			parked := ""
 			if st := stuckThreads(x); len(st) > 0 {
-				bad("stuck", fmt.Sprintf("at quiescence a thread is blocked outside its idle point: %v; %d of %d frames delivered", st, len(run.got), len(run.frames)))
-				return
+				parked = fmt.Sprintf("; parked outside the known idle points: %v", st)
+				stats["executions_with_threads_parked_elsewhere"]++
 			}
 			if len(run.got)-nils != len(run.frames)-nrej {
 				var missing []int
@@ -136,7 +139,7 @@ func c10Check(r *ev.Run, alphabet []streamFrame, stats map[string]int64) func(ru
 						missing = append(missing, fi)
 					}
 				}
-				bad("lost", fmt.Sprintf("%d of %d decodable frames were delivered; missing %v", len(run.got)-nils, len(run.frames)-nrej, missing))
+				bad("lost", fmt.Sprintf("%d of %d decodable frames were delivered; missing %v%s", len(run.got)-nils, len(run.frames)-nrej, missing, parked))
 				return
 			}
 			if nerr != 0 {
